@@ -1004,9 +1004,7 @@ coap_op_dyn_resource_added(coap_session_t *session,
 
   (void)user_data;
 
-  fp_orig = fopen((const char *)context->dyn_resource_save_file->s, "a");
-  if (fp_orig == NULL)
-    return 0;
+  fp_orig = fopen((const char *)context->dyn_resource_save_file->s, "r");
 
   new = coap_malloc_type(COAP_STRING,
                          context->dyn_resource_save_file->length + 5);
@@ -1020,7 +1018,7 @@ coap_op_dyn_resource_added(coap_session_t *session,
     goto fail;
 
   /* Go through and locate duplicate resource to delete */
-  while (1) {
+  while (fp_orig) {
     if (!coap_op_dyn_resource_read(fp_orig, &e_proto, &name, &raw_packet))
       break;
     if (!coap_string_equal(resource_name, name)) {
@@ -1044,7 +1042,8 @@ coap_op_dyn_resource_added(coap_session_t *session,
   if (fflush(fp_new) == EOF)
     goto fail;
   fclose(fp_new);
-  fclose(fp_orig);
+  if (fp_orig)
+    fclose(fp_orig);
   /* Either old or new is in place */
   (void)rename(new, (const char *)context->dyn_resource_save_file->s);
   coap_free_type(COAP_STRING, new);
